@@ -8,7 +8,7 @@
 (*          symbols, and the (N+1)-symbol texts of the slice selected by Seed;   *)
 (*          plus the directed texts of Extra.  The driver evaluates it through   *)
 (*          minijson directly (inferred and string) and as the only, named,      *)
-(*          group of a regex and of a dissect matcher with {.#}                  *)
+(*          group of a regex (and of a dissect) matcher with the view ViewOf(v)  *)
 (*  view  1..3 groups with texts from a pool x every choice of named groups x     *)
 (*          {.}, {#}, {.#}; the driver builds a regex and a dissect matcher with  *)
 (*          these groups, evaluates the match many times and records every        *)
@@ -33,7 +33,7 @@ Sliced == {f \in [1..(N + 1) -> 1..NS] : (Sum(f, 1) + Seed) % Slices = 0}
 
 \* directed texts: case variants of the literals, numeric shapes, 4-byte UTF-8, an encoded surrogate,
 \* U+FFFD itself, DEL, U+2028, every remaining control character
-Extra == {<<84, 82, 85, 69>>, <<116, 114, 117, 101>>, <<84, 114, 117, 101>>, <<70, 65, 76, 83, 69>>, <<102, 97, 108, 115, 101>>,
+Extra == {<<116, 82, 85, 101>>, <<102, 65, 76, 83, 101>>, <<70, 97, 108, 115, 101>>, <<84, 82, 85, 69>>, <<116, 114, 117, 101>>, <<84, 114, 117, 101>>, <<70, 65, 76, 83, 69>>, <<102, 97, 108, 115, 101>>,
           <<102, 97, 108, 197, 191, 101>>, <<70, 65, 76, 197, 191, 69>>, <<116, 114, 117, 101, 32>>, <<110, 117, 108, 108>>,
           <<48, 48>>, <<48, 49>>, <<48, 46, 53>>, <<48, 48, 46, 53>>, <<49, 46, 53, 48>>, <<45, 49>>, <<45, 48>>, <<43, 49>>,
           <<49, 101, 53>>, <<49, 69, 53>>, <<49, 46>>, <<46, 53>>, <<49, 46, 50, 46, 51>>, <<48, 120, 49, 48>>, <<49, 50, 51, 52, 53, 54, 55, 56, 57, 48, 49, 50, 51, 52, 53, 54, 55, 56, 57, 48, 49, 50, 51>>,
@@ -54,14 +54,18 @@ ViewCases == UNION {{[vals |-> [i \in 1..n |-> VP[v[i]]], named |-> S, view |-> 
 
 Pairs(exp) == [k \in 1..Len(exp) |-> <<exp[k].key, exp[k].text>>]
 K == <<107>>
+RECURSIVE ByteSum(_)
+ByteSum(v) == IF v = <<>> THEN 0 ELSE v[1] + ByteSum(Tail(v))
+ViewOf(v) == <<".", "#", ".#">>[((Len(v) + ByteSum(v)) % 3) + 1]     \* the three views take turns
 ValVector(v) ==
-  LET names == <<<<NameOf(1), 1>>>>  groups == <<v, v>> IN
-  [t |-> "val", v |-> v,
+  LET names == <<<<NameOf(1), 1>>>>  groups == <<v, v>>  view == ViewOf(v)
+      named == view \in {".", ".#"}  numb == view \in {"#", ".#"} IN
+  [t |-> "val", v |-> v, view |-> view,
    refi |-> EncodeOps(<<[op |-> "inferred", key |-> K, val |-> v]>>),
    refs |-> EncodeOps(<<[op |-> "string", key |-> K, val |-> v]>>),
    names |-> names, groups |-> groups,
-   exp |-> Pairs(Expected(names, groups, TRUE, TRUE)),
-   ref |-> Encode(names, groups, TRUE, TRUE)]
+   exp |-> Pairs(Expected(names, groups, named, numb)),
+   ref |-> Encode(names, groups, named, numb)]
 ViewVector(x) ==
   LET groups == GroupsOf(x.vals)  names == NamesOf(x.named)
       named == x.view \in {".", ".#"}  numb == x.view \in {"#", ".#"} IN
